@@ -1,9 +1,10 @@
 import OrsoVerif.Model.PyVal
 import OrsoVerif.Model.DictSession
+import OrsoVerif.Model.DictViews
 /-! Driver glue for C02.  The driver runs the *assembled code* (`Model/DictRowCode.lean`, built from the
 statements extracted from the working tree), not the specification functions. -/
 namespace Drv.C02
-open DictRow DictSession Gen.DictCode
+open DictRow DictSession DictViews Gen.DictCode
 
 def asStrs : List PyVal → Option (List String)
   | [] => some []
@@ -75,18 +76,62 @@ def outV : Out PyVal → PyVal
   | .appended rows v => .list ([.str "appended", .list (rows.map .list)] ++ (viewsV v).drop 1)
   | .row v => .list (.str "row" :: viewsV v)
 
+def asView : String → Option View
+  | "as_map" => some .asMap
+  | "as_dict" => some .asDict
+  | "values" => some .values
+  | "keys" => some .keys
+  | "as_json" => some .asJson
+  | _ => none
+
+def asViews : List PyVal → Option (List View)
+  | [] => some []
+  | .str s :: xs => do
+    let v ← asView s
+    let vs ← asViews xs
+    pure (v :: vs)
+  | _ => none
+
+def sentS : String := "__c02_changed__"
+
+/-- what the harness does to an object it was handed (harness/props/c02.py `_change`): drop the first entry,
+overwrite the next one, add one -/
+def changeF : Content PyVal → Content PyVal
+  | .pairs l => .pairs ((match l.drop 1 with | [] => [] | p :: r => (p.1, .str sentS) :: r) ++ [(sentS, .str sentS)])
+  | .vals l => .vals ((match l.drop 1 with | [] => [] | _ :: r => .str sentS :: r) ++ [.str sentS])
+  | .names l => .names ((match l.drop 1 with | [] => [] | _ :: r => sentS :: r) ++ [sentS])
+
+def contentV : Option (Content PyVal) → PyVal
+  | some (.pairs l) => pairs l
+  | some (.vals l) => .list l
+  | some (.names l) => .list (l.map .str)
+  | none => errV
+
 def handle (op : String) (args : List PyVal) : Option (List PyVal) :=
   match op, args with
-  | "row", [.list fields, .dict d, .list probes, dflt] => do
+  | "row", [.list fields, .dict d, .list probes, dflt, .bool isSub] => do
     let fields ← asStrs fields
     let probes ← asStrs probes
-    match rowNew .none .str (createClass fields tuplesOnlyDefault) (.dict d) with
+    match rowNew .none .str (createClass fields tuplesOnlyDefault) (if isSub then .sub d else .dict d) with
     | none => pure [errV]
     | some row =>
       pure [.list row, pairs (asMapExpr fields row), pairs (asDictExpr fields row),
             .list (probes.map fun p => optV (getCode fields row p dflt)),
             .list ((keysExpr fields row).map .str), .list (valuesExpr fields row),
             pairs (asJsonViewExpr fields row)]
+  | "views", [.list fields, .dict d, .list first, .list thn] => do
+    -- one row object: read `first`, read it again, change every object handed out, read `thn`
+    let fields ← asStrs fields
+    let first ← asViews first
+    let thn ← asViews thn
+    match rowNew .none .str (createClass fields tuplesOnlyDefault) (.dict d) with
+    | none => pure [errV]
+    | some row =>
+      let acts : List (Act PyVal) :=
+        first.map .read ++ first.map .read ++ first.eraseDups.map (fun v => .change v changeF) ++ thn.map .read
+      let outs := (runActs codeCfg ⟨fields, row, []⟩ acts)
+      pure [.list ((outs.take (2 * first.length)).map fun p => contentV p.2),
+            .list ((outs.drop (2 * first.length)).map fun p => contentV p.2)]
   | "frame", [.list ds] => do
     let ds ← asDicts ds
     match ds with
@@ -95,10 +140,10 @@ def handle (op : String) (args : List PyVal) : Option (List PyVal) :=
       match frameOfDictsCode .none .str ds with
       | none => pure [errV]
       | some (names, rows) => pure [.list (names.map .str), .list (rows.map .list)]
-  | "append", [.list fields, .list rows, .dict d] => do
+  | "append", [.list fields, .list rows, .dict d, .bool isSub] => do
     let fields ← asStrs fields
     let rows ← asRows rows
-    match appendCode .none .str (createClass fields frameRowsTuplesOnly) rows d with
+    match (if isSub then appendCodeSub else appendCode) .none .str (createClass fields frameRowsTuplesOnly) rows d with
     | none => pure [errV]
     | some rows' => pure [.list (rows'.map .list)]
   | "session", [.list ops] => do
